@@ -216,7 +216,11 @@ func judgeCapture(c *capCase, ex explainer) (out []finding) {
 			out = append(out, finding{"capture:status-zero-after-implicit-200:" + firstStatusOp,
 				fmt.Sprintf("the handler's first operation was %s without WriteHeader: the underlying writer recorded status %d, ResponseCapture.StatusCode is 0", firstStatusOp, c.UnderStatus)})
 		case later[c.GotStatus] && c.GotStatus != firstCode:
-			out = append(out, finding{"capture:status-follows-superfluous-writeheader",
+			cl := "after-explicit-status"
+			if firstStatusOp != "header" {
+				cl = "after-implicit-200"
+			}
+			out = append(out, finding{"capture:status-follows-superfluous-writeheader:" + cl,
 				fmt.Sprintf("status %d was written first (underlying writer), a later superfluous WriteHeader(%d) is what ResponseCapture.StatusCode reports", c.UnderStatus, c.GotStatus)})
 		default:
 			out = append(out, finding{"capture:status-mismatch", fmt.Sprintf("underlying writer recorded %d, capture reports %d", c.UnderStatus, c.GotStatus)})
